@@ -45,6 +45,7 @@ DEVS = {
     "crash.extend_cycle_through_attribute": (["Type", "Attribute", "Extend"], 3, 0, "tiny"),
     "crash.parent_cycle": (["Service", "HTTP", "Parent"], 3, 0, "tiny"),
     "accept.scope": (["Service", "Method", "Security", "Scope"], 4, 0, "tiny"),
+    "accept.response_view_mapping": (["ResultType", "Attribute", "View", "Service", "Method", "Result", "HTTP", "Response", "Header"], 9, 0, "rv", "simulate"),
     "accept.body_attribute": (["Service", "Method", "HTTP", "Body", "Attribute"], 5, 0, "min", "simulate"),
     "accept.response_tag": (["Service", "Method", "HTTP", "Response", "Tag"], 5, 0, "min", "simulate"),
     "accept.request_mapping": (["Service", "Method", "HTTP", "Param"], 4, 0, "tiny"),
@@ -106,8 +107,9 @@ def generate(ctx, quick):
     # focused walks: a fixed spine (one service, method, transport block, payload/result) and a handful of functions around one kind of reference
     # (sec: security requirements with several scopes; rec / rech: user types that reach themselves through attributes, arrays, maps and
     # Extend, used by a method with a gRPC / an HTTP transport; par: up to three services naming each other as Parent, canonical methods
-    # with and without routes, relative / parameterised / absolute paths)
-    for name in ("map", "err", "body", "tag", "grpc", "view", "sec", "rec", "rech", "par"):
+    # with and without routes, relative / parameterised / absolute paths; rview: a result type with two views, a method that renders a named
+    # view or any, response headers / cookies / bodies naming attributes inside and outside the rendered view)
+    for name in ("map", "err", "body", "tag", "grpc", "view", "sec", "rec", "rech", "par", "rview"):
         runs.append(("gen/Gen_DSLProgram_%s.cfg" % name, 100 if quick else 1000, "Gen simulate focused " + name))
 
     def one(r):
